@@ -8,4 +8,9 @@ require (
 	github.com/pion/transport/v3 v3.0.0
 )
 
+require (
+	golang.org/x/net v0.34.0 // indirect
+	golang.org/x/sys v0.29.0 // indirect
+)
+
 replace github.com/pion/transport/v3 => /repo
